@@ -179,7 +179,7 @@ SPEC = r"""
         r is Ok ==> (r matches Ok(Token::StrLiteral(s)) || r matches Ok(Token::InterpStrLiteral(s, slots))), // [C15:a_string_literal_lexes_to_a_string_token]
         (!interpolate && lit_scan(old(self).scanner.text(), old(self).scanner.pos()) is Closed)
             ==> (r matches Ok(Token::StrLiteral(s)) && s@ == lit_scan(old(self).scanner.text(), old(self).scanner.pos())->Closed_0
-                 && final(self).scanner.pos() == lit_scan(old(self).scanner.text(), old(self).scanner.pos())->Closed_1 + 1), // [C15:a_string_literal_denotes_exactly_its_characters_with_the_documented_escapes_decoded_and_ends_at_its_closing_quote]
+                 && final(self).scanner.pos() == lit_scan(old(self).scanner.text(), old(self).scanner.pos())->Closed_1 + 1), // [C09_C15:a_string_literal_denotes_exactly_its_characters_with_the_documented_escapes_decoded_and_ends_at_its_closing_quote]
         (!interpolate && lit_scan(old(self).scanner.text(), old(self).scanner.pos()) is Bad)
             ==> r == Err::<Token, LexError>(lit_scan(old(self).scanner.text(), old(self).scanner.pos())->Bad_0), // [C15_C18:an_invalid_escape_or_hex_digit_or_an_unescaped_dollar_is_a_reported_error_at_the_position_of_that_character]
         final(self).scanner.text() == old(self).scanner.text(),
@@ -198,8 +198,8 @@ def build(read):
     for k, n in [("enum", "Token"), ("enum", "LexError"), ("enum", "StrScanState")]:
         b.copied.append((k, n, "src/lexer/mod.rs", extract.item_line(src, k, n)))
     b.edits.append("D1: derive attributes on Token / LexError removed")
-    f = extract.rewrite_once(f, "u8::from_str_radix(&c.to_string(), 16)", "hex_digit(c)", "next_str_literal: hex digit")
-    b.edits.append("D5: `u8::from_str_radix(&c.to_string(), 16)` -> `hex_digit(c)` (std contract: value of one hexadecimal digit)")
+    f, k_hex = re.subn(r"u8::from_str_radix\(&c\.to_string\(\), 16\)", "hex_digit(c)", f)
+    b.edits.append(f"D5: {k_hex}x `u8::from_str_radix(&c.to_string(), 16)` -> `hex_digit(c)` (std contract: value of one hexadecimal digit)")
     f = extract.rewrite_once(f, "let s = chars.into_iter().collect();", "let s = collect_string(chars);", "next_str_literal: collect")
     b.edits.append("D5: `chars.into_iter().collect()` -> `collect_string(chars)` (std contract: a String with exactly these characters)")
     for old, new in [("let mut chars = vec![];", "let mut chars: Vec<char> = vec![];"),
@@ -231,7 +231,7 @@ def build(read):
                     && (forall|j: int| cur_interpolation_start + 1 < j <= chars@.len() ==> #[trigger] depth(chars@, cur_interpolation_start + 1, j) > 0)
                     && (cur_interpolation_start + 1 < chars@.len() ==> chars@[cur_interpolation_start + 1] == '{'),
                 !interpolate ==> interpolation_slots@.len() == 0,
-                !interpolate ==> scan_inv(self.scanner.text(), lit_start(old(self).scanner.text(), old(self).scanner.pos()), self.scanner.pos(), state, first_hex_char, chars@), // [C15:the_text_decoded_so_far_is_the_decoding_of_the_source_read_so_far]
+                !interpolate ==> scan_inv(self.scanner.text(), lit_start(old(self).scanner.text(), old(self).scanner.pos()), self.scanner.pos(), state, first_hex_char, chars@), // [C09_C15:the_text_decoded_so_far_is_the_decoding_of_the_source_read_so_far]
                 !(state is Interpolate) ==> interpolation_brace_count == 0,"""}}
     loops[1]["body_start"] = "let ghost slots0 = interpolation_slots@;"
     f = extract.annotate_fn(hdr + body, spec=SPEC, attrs="#[verifier::exec_allows_no_decreases_clause]\n#[verifier::loop_isolation(false)]", loops=loops)
